@@ -32,7 +32,8 @@ def streams(tier, rng, P, only=None, cases=None):
             npar = rng.choice([0, 0, 1, 2, 3, 10, 12])
             body = body_with_params(rng, npar)
             args = [rng.choice(FRAGS[:15]) for _ in range(npar)]
-            name = rng.choice(["#A", "#Mac", "STRV"])
+            # (also string variables named like the words that read a system value — TIMEPTR, TIMEPOS, KEY_SHIFT are not reserved)
+            name = rng.choice(["#A", "#Mac", "STRV", "STRV", "TIMEPTR", "TIMEPOS", "KEY_SHIFT"])
             if name.startswith("#"): define = "%s={%s}" % (name, body); call0 = name
             else: define = "STR %s={%s};" % (name, body); call0 = name
             # (an argument position may be left empty: it still holds its place, the parameter is the empty text)
